@@ -96,6 +96,10 @@ type c20Case struct {
 	Img   c02Img
 	Dev   map[string]int
 	Equiv string `json:",omitempty"`
+	// Ctx20: the context (Dev) of an equivalence case indexes c20Fields (boundary and out-of-range
+	// values) instead of c02Fields (valid values): a sentinel and its documented default must be
+	// accepted or rejected TOGETHER whatever else is in the options
+	Ctx20 bool   `json:",omitempty"`
 	Bnd   string `json:",omitempty"`
 	WKind string `json:",omitempty"` // writer-fault part: which output kind
 	WAt   int    `json:",omitempty"` // ... the writer accepts this many bytes in total
@@ -171,6 +175,9 @@ func (cs *c20Case) key() string {
 	case "boundary":
 		return "options boundary-image " + cs.Bnd
 	case "equiv":
+		if cs.Ctx20 {
+			return fmt.Sprintf("options equivalence {%s} on %dx%d %s/%s boundary-ctx{%s}", cs.Equiv, cs.Img.W, cs.Img.H, cs.Img.Content, cs.Img.Alpha, devString(cs.Dev, c20Fields))
+		}
 		return fmt.Sprintf("options equivalence {%s} on %dx%d %s/%s ctx{%s}", cs.Equiv, cs.Img.W, cs.Img.H, cs.Img.Content, cs.Img.Alpha, devString(cs.Dev, c02Fields))
 	case "nil-default":
 		return fmt.Sprintf("options nil=DefaultOptions on %dx%d %s/%s", cs.Img.W, cs.Img.H, cs.Img.Content, cs.Img.Alpha)
@@ -272,7 +279,11 @@ func (cs *c20Case) run() string {
 		}
 		mk := func(f func(o *webp.EncoderOptions)) *webp.EncoderOptions {
 			o := webp.DefaultOptions()
-			for _, fl := range c02Fields {
+			fields := c02Fields
+			if cs.Ctx20 {
+				fields = c20Fields
+			}
+			for _, fl := range fields {
 				if i, ok := cs.Dev[fl.name]; ok && i > 0 {
 					fl.set(o, i)
 				}
@@ -407,7 +418,7 @@ var c20Boundaries = []string{"nil-writer", "nil-image", "nil-image-nil-opts-loss
 
 func init() {
 	registerCases[c20Case]("C20", "exploration",
-		"EncoderOptions: every field at its boundary values (min-1, min, min+1, sentinels, max-1, max, max+1, MinInt, MaxInt; floats: NaN, +-Inf, -0, tiny, 100.0001), all (field,value) pairs across fields (deviation bound 2; thorough: all triples, bound 3, and a fourth picture) x 3 pictures; oracle: no panic, error XOR conformant decodable file.  Plus every documented equivalence (sentinel = explicit default, inert fields) under every single-field context (bound 1), nil = DefaultOptions(), and boundary images (nil arguments, empty/inverted bounds, 16383 / 16384 px, failing writer), and writer faults: 4 output kinds (simple / extended container, streaming / buffered lossless) x 2 pictures (even and odd image payload) x a writer that accepts n bytes and then fails, for EVERY n below the output length, reporting 0 or the bytes it took: no panic, and never a nil error for a file that was cut short",
+		"EncoderOptions: every field at its boundary values (min-1, min, min+1, sentinels, max-1, max, max+1, MinInt, MaxInt; floats: NaN, +-Inf, -0, tiny, 100.0001), all (field,value) pairs across fields (deviation bound 2; thorough: all triples, bound 3, and a fourth picture) x 3 pictures; oracle: no panic, error XOR conformant decodable file.  Plus every documented equivalence (sentinel = explicit default, inert fields) under every single-field context (bound 1) of valid values, and again under every single-field context of boundary / out-of-range values (the two forms must be accepted or rejected together), nil = DefaultOptions(), and boundary images (nil arguments, empty/inverted bounds, 16383 / 16384 px, failing writer), and writer faults: 4 output kinds (simple / extended container, streaming / buffered lossless) x 2 pictures (even and odd image payload) x a writer that accepts n bytes and then fails, for EVERY n below the output length, reporting 0 or the bytes it took: no panic, and never a nil error for a file that was cut short",
 		[]string{"worker count pinned to 1, pools never reuse", "validator and independent decoder as in C02"},
 		func(e *fw.Env) int {
 			if e.Quick() {
@@ -428,7 +439,19 @@ func init() {
 			}
 			return func(c *choice.Ctx) caseI {
 				cs := &c20Case{Seed: e.Seed, Dev: map[string]int{}}
-				switch c.PickFree(5, "part") {
+				switch c.PickFree(6, "part") {
+				case 5:
+					cs.Part = "equiv"
+					cs.Ctx20 = true
+					eqImgs := []c02Img{images[1], images[2]}
+					cs.Img = eqImgs[c.PickFree(len(eqImgs), "img")]
+					cs.Equiv = c20Equivs[c.PickFree(len(c20Equivs), "equiv")].name
+					// context: one other field at a boundary / out-of-range value
+					for _, f := range c20Fields {
+						if i := c.PickCost(len(f.vals), 2, f.name); i > 0 {
+							cs.Dev[f.name] = i
+						}
+					}
 				case 4:
 					// environment answers of the io.Writer: it accepts n bytes in total and then fails, for
 					// EVERY n below the output length, reporting either 0 or the bytes it still took
